@@ -110,6 +110,18 @@ def tasks(tier):
         cfg = dict(M=4, per_class=pc, max_unknown=None, alphabet=["ok", "r:P", "r:R", "r:T", "x:T"],
                    rc_mode="oneshot")
         out.append({"family": "caps-oneshot-classifier", "cfg": cfg, "entry": e, "bound": 0})
+    # class caps next to Classification objects that carry a Retry-After hint (short and longer
+    # than the deadline); a rejected value that is None, through execute() as well
+    for pc, mu, dl, e in itertools.product([{"T": 1}, {"R": 0, "U": 1}, {"R": 1}], [None, 1], [None, 6],
+                                           Q4 + ["Policy.call", "AsyncRetryPolicy.execute"]):
+        cfg = dict(M=4, per_class=pc, max_unknown=mu, deadline=dl, ra_ticks=2 if dl is None else 9,
+                   alphabet=["ok", "x:T+ra", "x:R+ra", "r:U+ra", "r:R+ra", "x:T"])
+        out.append({"family": "caps-hinted-classes", "cfg": cfg, "entry": e, "bound": 0})
+    for pc, mu, e in itertools.product([{}, {"T": 1}], [None, 1], Q4 + ["Policy.execute", "RetryPolicy.execute",
+                                                                       "AsyncPolicy.execute"]):
+        cfg = dict(M=4, per_class=pc, max_unknown=mu, force_rc=True,
+                   alphabet=["ok", "rn:P", "rn:T", "rn:U", "rn:A", "x:T"])
+        out.append({"family": "caps-none-result", "cfg": cfg, "entry": e, "bound": 0})
     # long runs: a cap of 8 or 9, and a cap of 1 whose class comes back after many other failures
     for pc, mu in [({"T": 8}, None), ({"T": 9, "U": 1}, None), ({}, 8), ({"U": 1, "T": 10}, 3)]:
         for e in Q4:
